@@ -10,6 +10,8 @@ package main
 import (
 	"fmt"
 	"go/types"
+	"os"
+	"regexp"
 	"sort"
 	"strings"
 
@@ -19,6 +21,50 @@ import (
 func isErrorType(t types.Type) bool {
 	n, ok := t.(*types.Named)
 	return ok && n.Obj().Name() == "error" && n.Obj().Pkg() == nil
+}
+
+// errorsNotDroppedByContinuing: a path that goes round a loop again has not seen a non-nil error from a call made in
+// that iteration (an error must leave the function, not be skipped with continue).
+func errorsNotDroppedByContinuing(ex *Exec, frm *frame, lr *loopRec, edge int, name, g string) {
+	n := 0
+	if os.Getenv("GOVC_DEBUG_HAVOC") != "" {
+		fmt.Fprintf(os.Stderr, "backedge hook %s loop %d edge %d trace %d\n", name, lr.ord, edge, len(ex.trace))
+		for i := range ex.trace {
+			ev := &ex.trace[i]
+			if ev.Kind == "call" {
+				fmt.Fprintf(os.Stderr, "  call %s depth %d res %v inloop %v\n", ev.Callee, ev.Depth, ev.Res != nil, ev.Instr != nil && lr.blocks[ev.Instr.Block()])
+			}
+		}
+	}
+	for i := range ex.trace {
+		ev := &ex.trace[i]
+		if ev.Kind != "call" || ev.Depth != 0 || ev.Res == nil || ev.Instr == nil || !lr.blocks[ev.Instr.Block()] {
+			continue
+		}
+		var ce string
+		switch {
+		case len(ev.Res.Tuple) > 0:
+			last := ev.Res.Tuple[len(ev.Res.Tuple)-1]
+			if last.Typ == nil || !isErrorType(last.Typ) {
+				continue
+			}
+			ce = last.T
+		case ev.Res.Typ != nil && isErrorType(ev.Res.Typ):
+			ce = ev.Res.T
+		default:
+			continue
+		}
+		if strings.Contains(ev.Callee, "fmt.Errorf") {
+			continue
+		}
+		n++
+		short := ev.Callee[strings.LastIndex(ev.Callee, ".")+1:]
+		if os.Getenv("GOVC_DEBUG_HAVOC") != "" {
+			fmt.Fprintf(os.Stderr, "  oblige continuing %s ce=%s\n", short, ce)
+		}
+		ex.oblige(fmt.Sprintf("%s#errors:not_dropped_by_continuing:loop%d.%d:%s@%d", name, lr.ord, edge, short, n), "schema", and(g, ev.Guard), eq(ce, nilIface),
+			"a path that continues with the next iteration has not seen a non-nil error from "+short, ex.pos(ev.Instr.Pos()))
+	}
 }
 
 // errorPropagation adds, for every call event whose last result is an error, the obligation that on
@@ -83,6 +129,8 @@ func errorPropagation(ex *Exec, frm *frame, name, g string, res []Val) {
 	o.Guard = "true"
 }
 
+var reEntryPre = regexp.MustCompile(`^(decorator\.(Decorate|DecorateFile|Parse|ParseFile|ParseDir)|\(\*decorator\.Decorator\)\.ParseDir)#call:decorator\.\(\*Decorator\)\.\w+:(maps|objects)@`)
+
 func buildC17(p *Program, tier string) ([]*Unit, []UnitError) {
 	var units []*Unit
 	var errs []UnitError
@@ -107,6 +155,9 @@ func buildC17(p *Program, tier string) ([]*Unit, []UnitError) {
 			continue
 		}
 		opts := &UnitOpts{Trace: true, NameSuffix: ""}
+		opts.AtBackEdge = func(ex *Exec, frm *frame, lr *loopRec, edge int, g string, st *State) {
+			errorsNotDroppedByContinuing(ex, frm, lr, edge, name, g)
+		}
 		opts.AtExit = func(ex *Exec, frm *frame, g string, st *State, res []Val) {
 			errorPropagation(ex, frm, name, g, res)
 			// no output on error: format.Node is reached only if restoring returned nil
@@ -329,6 +380,10 @@ func init() {
 		Packages: []string{pkgDecorator},
 		Build:    buildC17,
 		Select: func(n string) bool {
+			if reEntryPre.MatchString(n) {
+				// entry preconditions carried from the package-level helpers and ParseDir to the methods they wrap
+				return true
+			}
 			return strings.Contains(n, "#errors:") || strings.Contains(n, "#frame") || strings.Contains(n, "error_result")
 		},
 		Siblings: "C03/C11 (decorator side fields and maps, when claimed)",
